@@ -106,9 +106,11 @@ def check(case):
         raise Violation('rise-curve-shape', repr(W.shape))
     total_abs = 0.0
     refs = []
+    abs_refs = []
     for a, b in zip(levels[:-1], levels[1:]):
         ref, ref_abs = reference_integral(f, float(a), float(b), knots)
         refs.append(ref)
+        abs_refs.append(ref_abs)
         total_abs += ref_abs
     scale = total_abs + abs(case['mean']) + 1e-6
     tol = 1e-9 * scale + 1e-9
@@ -126,7 +128,12 @@ def check(case):
                             W.mean(), case['mean']))
     dense = np.concatenate([
         np.linspace(a, b, 33) for a, b in zip(levels[:-1], levels[1:])])
-    nonneg = bool((np.asarray(f(dense), dtype=float) >= 0).all())
+    # specific yield is non-negative over the grid: on a dense sample AND by
+    # measure (the integral of |f| equals the integral of f on every cell,
+    # knots as break points) - a cubic through (.., 1, 0, 0) dips below zero
+    # on a 2 mm stretch that a 33-point sample of a 100 mm cell steps over
+    nonneg = bool((np.asarray(f(dense), dtype=float) >= 0).all()) and all(
+        ra - r <= 1e-12 * scale for r, ra in zip(refs, abs_refs))
     if nonneg and (np.diff(W) < -tol).any():
         raise Violation('rise-curve-decreases', repr(W.tolist()[:10]))
     # refinement
